@@ -230,6 +230,9 @@ PROPS["C15"] = dict(
             # a source that does not parse in the timestamp-aware loader (auto-reload on): every history of 6 operations on one name
             dict(name="broken", module="CacheLoaders", cmd="cachehist", cfg={"quick": "MC_C15_broken.cfg", "thorough": "MC_C15_broken.cfg"},
                  timeout={"quick": 300, "thorough": 900}, transform=_c15_fs),
+            # a name that is registered AND held by both loaders (m1): every history of 5 operations incl. registering the very text a loader holds
+            dict(name="both", module="CacheLoaders", cmd="cachehist", cfg={"quick": "MC_C15_m1.cfg", "thorough": "MC_C15_m1.cfg"},
+                 timeout={"quick": 300, "thorough": 900}, transform=_c15_fs),
             dict(name="random", cfg={}, c2s=dict(gen="cachehist", cmd="cachehist", n={"quick": 300, "thorough": 4000}, len=80,
                                                  trace=dict(module="Trace_C15", cfg="Trace_C15.cfg")))],
     nontrivial=lambda r: True,
